@@ -70,6 +70,7 @@ class Translator:
         self.returns = []
         self.private_params = {}                # private methods of the class being translated -> parameter names
         self.cls_name = None                    # class being translated: self.m(...) resolves to the summary 'Class.m'
+        self.current_property = None            # 'self.<name>' while the body of a (lazy)property of that class is translated
 
     def summary_of(self, f, fname):
         if self.cls_name and isinstance(f, ast.Attribute) and isinstance(f.value, ast.Name) and f.value.id == 'self':
@@ -115,7 +116,7 @@ class Translator:
                 if isinstance(v, ast.Constant) and v.value is val:
                     return self.sources(f.value) if (isinstance(f, ast.Attribute) and fname == 'astype') else [s for a in e.args[:2] for s in self.sources(a)]
                 return []
-            is_module_call = (not isinstance(f, ast.Attribute)) or ast.unparse(f.value) in ('np', 'numpy', 'np.ma', 'ma', 'u', 'np.lib.stride_tricks')
+            is_module_call = (not isinstance(f, ast.Attribute)) or ast.unparse(f.value).split('/')[-1] in ('np', 'numpy', 'np.ma', 'ma', 'u', 'np.lib.stride_tricks')   # (class programs prefix every name with `<method>/`)
             if isinstance(f, ast.Attribute) and not is_module_call and fname in ALIAS_METHODS:
                 return self.sources(f.value)                     # x.reshape(...), x.view(), ...: the receiver
             if fname in ALIAS_FUNCS and is_module_call:
@@ -217,6 +218,9 @@ class Translator:
                 for src in self.sources(s.value):
                     # weak update: the return variable accumulates everything any return statement may alias
                     out.append(('ite', ('assign', ctx.var('<return>'), ctx.var(src)), ('skip',)))
+                    if self.current_property:
+                        # a property of the class being translated: reading `self.<name>` elsewhere yields what it returns
+                        out.append(('ite', ('assign', ctx.var(self.current_property), ctx.var(src)), ('skip',)))
         elif isinstance(s, ast.With):
             for it in s.items:
                 self.call_effects(ctx, it.context_expr, out)
@@ -432,7 +436,12 @@ def translate_class(cls, summaries):
             pre = [('assign', ctx.var(f'{m.name}/{p}'), ctx.var(f'{m.name}::{p}')) for p in params_of(m)]
         ren = Renamer(m.name, set(params_of(m)))
         mm = ren.visit(copy.deepcopy(m))
-        return tr.seq(pre + [tr.block(ctx, mm.body, {ren.rename(n) for n in arrayish_names(m)})])
+        decos = {(d.attr if isinstance(d, ast.Attribute) else getattr(d, 'id', None)) for d in m.decorator_list}
+        tr.current_property = f'self.{m.name}' if decos & {'property', 'lazyproperty', 'cached_property'} else None
+        try:
+            return tr.seq(pre + [tr.block(ctx, mm.body, {ren.rename(n) for n in arrayish_names(m)})])
+        finally:
+            tr.current_property = None
     init = next((m for m in methods if m.name == '__init__'), None)
     others = [m for m in methods if m.name != '__init__']
     alt = None
